@@ -1303,6 +1303,9 @@ def r21(ctx, rep):
     import C02
     rep.borrowed(C02.r6, ctx, "C01.R21", "null comparisons become IS [NOT] NULL on the operand that is not the null literal")
     rep.borrowed(C02.r4, ctx, "C01.R22", "every SQL template guards its operator context: an operand is parenthesised where SQL would regroup it")
+    # which rows a `take` keeps after a join / append depends on the order remembered across it (the Flattener's state discipline)
+    import C03
+    rep.borrowed(C03.r4, ctx, "C01.R23", "the order in effect before a join / append is the order in effect after it; a sub-pipeline's sort does not leak out")
 
 
 def run(ctx, rep):
